@@ -34,7 +34,26 @@ def c14(prog, rep):
     rep.trusted_base += ['clang 14 front end (JSON AST)', 'qv CFG builder', 'macro atomicity']
 
 
+def c13(prog, rep):
+    from .lockset import rule_c13
+    rule_c13(prog, rep)
+    rep.floor('B-guard', 40)
+    rep.floor('B-single', 70)
+    rep.floor('B-immut', 80)
+    rep.explanation = (
+        'Guarded-by (lockset) discipline: for every container operation C13 names (insert/put, get, remove/pop, '
+        'clear, toarray/tostring of tree table, hash table, list table, list/queue/stack, vector) every access to '
+        'mutable shared state (container fields, node fields, element buffer) must execute at lock depth >= 1 '
+        '(depths from the lock-depth analysis; static helpers inherit the minimum depth over their call sites), and '
+        'the operation must enter its outermost critical section at most once on every path. Fields exempt from '
+        'guarding are *derived* as written-only-by-the-constructor. This decides the lock-discipline clause - '
+        'necessary for linearizability and the failure mode the property cites - not linearizability itself.')
+    rep.assumptions += ['mutex macros are atomic acquire/release', 'linearizability itself (a property of schedules) is not decided',
+                        'a node whose every definition in the function is a fresh allocation is private until published (flow-insensitive)']
+
+
 PROPS = {
+    'C13': dict(fn=c13, level='other'),
     'C14': dict(fn=c14, level='proof'),
 }
 
